@@ -1,6 +1,7 @@
 """Runs the Rust harness (kvh) as a subprocess and plays the network for it."""
 import os
 import select
+import time
 import subprocess
 import struct
 
@@ -17,11 +18,15 @@ class Hang(Exception):
     pass
 
 
+MAX_EVENTS = 20000
+
+
 class Harness:
     def __init__(self, profile="debug", timeout=20.0):
         self.profile = profile
         self.timeout = timeout
         self.p = None
+        self.deadline = None
         self.start()
 
     def start(self):
@@ -44,7 +49,10 @@ class Harness:
 
     def _readline(self):
         while b"\n" not in self.buf:
-            r, _, _ = select.select([self.p.stdout], [], [], self.timeout)
+            left = self.timeout if self.deadline is None else min(self.timeout, self.deadline - time.time())
+            if left <= 0:
+                raise Hang()
+            r, _, _ = select.select([self.p.stdout], [], [], left)
             if not r:
                 raise Hang()
             chunk = os.read(self.p.stdout.fileno(), 1 << 16)
@@ -61,11 +69,19 @@ class Harness:
         """-> (result val, max single allocation in bytes). Transport events are answered by `net`.
         A harness that hangs or dies is restarted; the result is then T('hang') / T('abort')."""
         try:
+            # a call may not take longer than `timeout` in total nor perform more than MAX_EVENTS I/O events
+            # (a retry loop without back-off that never gives up keeps the pipe busy for ever)
+            self.deadline = time.time() + self.timeout
             self._send(op)
+            n = 0
             while True:
                 ev = loads(self._readline())
                 if ev.name == "result":
+                    self.deadline = None
                     return ev.args[0], ev.args[1]
+                n += 1
+                if n > MAX_EVENTS:
+                    raise Hang()
                 self._send(net.event(ev))
         except Hang:
             self.close()
